@@ -231,7 +231,13 @@ def sym_float(v=0.0):
         return v
     if isinstance(v, SInt):
         E.need_fit(v)
-        return SFloat(z3.fpSignedToFP(RNE, E.term(v), F64))
+        t = E.term(v)
+        if t.size() > 1025:
+            # float(int) raises OverflowError when the correctly rounded value would be beyond the largest double
+            lim = (1 << 1024) - (1 << 970)
+            if E.ENG.branch(z3.Or(t >= lim, t <= -lim)):
+                raise OverflowError("int too large to convert to float")
+        return SFloat(z3.fpSignedToFP(RNE, t, F64))
     return float(v)
 
 
